@@ -28,6 +28,15 @@ CLAIMED.update({
             "Independent component-wise model; Unicode white space outside Go's \\s is a grey zone; wrap window 500 taken from the documented constant.", "DESIGN.md 4/C19"),
 })
 
+CLAIMED.update({
+    "C05": ("model-based property testing with endings injected at arbitrary history positions; broker+dealer+meta reference models plus a structural differential (H1 table-size snapshot vs. model) after every step",
+            "Exploration: behaviour after every kind of session end is compared with the models at each step, and the router's table sizes (H1 hook) must equal what the history justifies at every quiescent point and the start-up snapshot after everyone left. Sampling.",
+            MODEL_NOTE + " H1 hook reads sizes inside the owning goroutines.", "DESIGN.md 4/C05"),
+    "C18": ("model-based property testing: mixed histories with meta-topic observers and meta procedure calls between steps vs. broker+dealer+meta reference models",
+            "Exploration: every meta answer and every meta event (kind, arguments, recipients, per-object order) is compared with the models after each step; refused/ineffective requests must announce nothing. Sampling. One open known finding (kill_all).",
+            MODEL_NOTE, "DESIGN.md 4/C18"),
+})
+
 NOT_YET = {}
 
 def main():
